@@ -26,7 +26,7 @@ from sim.faultsim import values_from_x
 PROP = "C10"
 NAME = "evalsim"
 RULE = (
-    "evalsim: one run = generated scheme + 8-40 ops (EVAL/REPEAT/RETURN/EVAL_FAULT/THREADS/RESTART/OPTIMIZE); "
+    "evalsim: one run = generated scheme + 8-40 ops (EVAL/REPEAT/RETURN/EVAL_FAULT/RETRY/THREADS/RESTART/OPTIMIZE); "
     "distinct = digest of (scheme feature vector, op-kind sequence, fault sites); non-trivial = at least one injected fault "
     "fired AND at least one purity oracle was evaluated after it"
 )
@@ -35,6 +35,8 @@ REAL_VS_STUB = {
     "scipy least_squares in OPTIMIZE ops",
     "stub": "scipy least_squares replaced by the scripted history driver in history segments",
 }
+# event fields that hold numbers computed by the system under test (everything else is a harness choice)
+SUT_OUTPUT_FIELDS = {"penalty", "digest", "outcome"}
 THREADS = [1, 2, 3, 5, 16]
 EVAL_SITES = ["objective", "group", "fill_item", "matrix", "residual", "line"]
 
@@ -71,6 +73,8 @@ def generate(rng: random.Random, tier: str) -> dict:
         r = rng.random()
         if r < fault_rate:
             ops.append({"op": "EVAL_FAULT", "dx": _dx(rng), "fault": gen_eval_fault(rng)})
+            if rng.random() < 0.4:
+                ops.append({"op": "RETRY"})  # the failed point is evaluated again, now without the fault
         elif r < fault_rate + 0.08:
             ops.append({"op": "THREADS", "t": rng.choice(THREADS)})
         elif r < fault_rate + 0.13:
@@ -104,6 +108,7 @@ class Run:
         self.ref_table: dict = {}  # x bytes -> reference penalty | exception name
         self.eval_xs: list = []  # x of every EVAL op (for RETURN)
         self.last_x = None
+        self.faulted_x = None
         self.fault_pending = False
         self.opt_digests: dict = {}
         self.kinds: list = []
@@ -368,8 +373,17 @@ class Run:
                     pen = run.evaluate(fun, x, "RETURN")
                 elif kind == "EVAL_FAULT":
                     x = run.x_from(op["dx"])
+                    run.faulted_x = x
+                    run.eval_xs.append(x)
                     run.evaluate(fun, x, "EVAL_FAULT", fault=op["fault"])
                     continue
+                elif kind == "RETRY":
+                    if run.faulted_x is None:
+                        rec.event(op="RETRY", outcome="skipped")
+                        continue
+                    x = run.faulted_x
+                    pen = run.evaluate(fun, x, "RETRY")
+                    rec.probe("retry_of_failed_point")
                 elif kind == "THREADS":
                     run.numba.set_num_threads(min(op["t"], run.numba.config.NUMBA_NUM_THREADS))
                     rec.event(op="THREADS", t=run.numba.get_num_threads())
